@@ -117,6 +117,28 @@ def order_space(w, tier):
                 yield op, tuple(A[i] for i in ms)
 
 
+def const_rich_alphabet(w):
+    """operands for the constant-folding interplay: identifiers, complement and negation, and the constants the rewrite rules single out
+    (0, 1, all-ones, sign bit, the half-width masks) - several constants in one operand list fold in an order the bracketing decides"""
+    a, b = g.ID('a', w), g.ID('b', w)
+    m = irsem.mask(w)
+    ks = [1, m, 1 << (w - 1), 3]
+    if w >= 16:
+        h = w // 2
+        ks += [(1 << h) - 1, m ^ ((1 << h) - 1)]
+    return [a, b, g.OP('^', a, g.I(w, m)), g.OP('-', a)] + [g.I(w, k) for k in ks]
+
+
+def const_rich_space(w, tier):
+    A = const_rich_alphabet(w)
+    for op in g.ASSOC:
+        for n in (3,) if tier == 'quick' else (2, 3, 4):
+            for ms in itertools.combinations_with_replacement(range(len(A)), n):
+                if len(set(ms)) < 2 or all(A[i][0] == 'int' for i in ms):
+                    continue
+                yield op, tuple(A[i] for i in ms)
+
+
 def twin_pairs(w):
     """operand pairs that differ in exactly one field of one node (the ordering key must see every field)"""
     if w < 16:
@@ -332,6 +354,11 @@ def shard(s, ns, tier, seed):
                 continue
             idem_case(part, t, H)
     k = 0
+    for w in (8, 32, 64) if tier == 'quick' else (8, 16, 32, 64):
+        for op, ms in const_rich_space(w, tier):
+            k += 1
+            if k % ns == s:
+                order_case(part, op, ms, H)
     for w in (8, 32) if tier == 'quick' else (8, 32, 16, 64):
         for op, ms in order_space(w, tier):
             k += 1
